@@ -169,29 +169,33 @@ def order_trav(ctx: Ctx) -> List[Ob]:
 
     # ---- recursive generator walkers
     for name, first in (("_iter_pre", "emit"), ("_iter_post", "descend")):
-        f = m.func(f"Node.{name}")
-        lp = _children_loop(ctx, f)
-        if not isinstance(lp.target, ast.Name):
-            raise AnalysisError(f"{f.qualname}: loop target is not a plain name")
-        lv = lp.target.id
-        emits = _top_index(lp.body, lambda st: _is_yield_of(st, lv))
-        descs = _top_index(lp.body, lambda st: _is_recursive_descent(ctx, f, st, lv))
-        all_y = sum(1 for st in lp.body for x in ast.walk(st) if isinstance(x, (ast.Yield, ast.YieldFrom)))
-        ok1 = len(emits) == 1 and len(descs) == 1 and all_y == 2
-        obs.append(ctx.ob("ORDER-TRAV", ["C06"], f, f"{name}: each child is yielded once and descended into once per iteration", lp, ok1,
-                          "" if ok1 else f"found {len(emits)} yield(s) of the child, {len(descs)} recursive descent(s), {all_y} yield statements in the loop body"))
-        if emits and descs:
-            ok2 = (emits[0] < descs[0]) == (first == "emit")
-            obs.append(ctx.ob("ORDER-TRAV", ["C06"], f, f"{name}: {first} first", lp, ok2,
-                              "" if ok2 else ("pre-order must yield a node before its descendants" if first == "emit"
-                                              else "post-order must yield a node after its descendants")))
-        other = [x for x in iter_own(f.node) if isinstance(x, (ast.Yield, ast.YieldFrom)) and not any(x is y for st in lp.body for y in ast.walk(st))]
-        obs.append(ctx.ob("ORDER-TRAV", ["C06"], f, f"{name}: nothing is yielded outside the child loop", None, not other,
-                          "" if not other else f"extra emission `{norm(other[0])}`: a node would be visited twice"))
-        # no filtering/early exit in the loop
-        ctrl = [x for st in lp.body for x in ast.walk(st) if isinstance(x, (ast.Break, ast.Continue, ast.Return, ast.If))]
-        obs.append(ctx.ob("ORDER-TRAV", ["C06"], f, f"{name}: the child loop has no skip/exit", lp, not ctrl,
-                          "" if not ctrl else f"`{norm(ctrl[0])[:60]}` lets the walk miss nodes"))
+        try:
+            f = m.func(f"Node.{name}")
+            lp = _children_loop(ctx, f)
+            if not isinstance(lp.target, ast.Name):
+                raise AnalysisError(f"{f.qualname}: loop target is not a plain name")
+            lv = lp.target.id
+            emits = _top_index(lp.body, lambda st: _is_yield_of(st, lv))
+            descs = _top_index(lp.body, lambda st: _is_recursive_descent(ctx, f, st, lv))
+            all_y = sum(1 for st in lp.body for x in ast.walk(st) if isinstance(x, (ast.Yield, ast.YieldFrom)))
+            ok1 = len(emits) == 1 and len(descs) == 1 and all_y == 2
+            obs.append(ctx.ob("ORDER-TRAV", ["C06"], f, f"{name}: each child is yielded once and descended into once per iteration", lp, ok1,
+                              "" if ok1 else f"found {len(emits)} yield(s) of the child, {len(descs)} recursive descent(s), {all_y} yield statements in the loop body"))
+            if emits and descs:
+                ok2 = (emits[0] < descs[0]) == (first == "emit")
+                obs.append(ctx.ob("ORDER-TRAV", ["C06"], f, f"{name}: {first} first", lp, ok2,
+                                  "" if ok2 else ("pre-order must yield a node before its descendants" if first == "emit"
+                                                  else "post-order must yield a node after its descendants")))
+            other = [x for x in iter_own(f.node) if isinstance(x, (ast.Yield, ast.YieldFrom)) and not any(x is y for st in lp.body for y in ast.walk(st))]
+            obs.append(ctx.ob("ORDER-TRAV", ["C06"], f, f"{name}: nothing is yielded outside the child loop", None, not other,
+                              "" if not other else f"extra emission `{norm(other[0])}`: a node would be visited twice"))
+            # no filtering/early exit in the loop
+            ctrl = [x for st in lp.body for x in ast.walk(st) if isinstance(x, (ast.Break, ast.Continue, ast.Return, ast.If))]
+            obs.append(ctx.ob("ORDER-TRAV", ["C06"], f, f"{name}: the child loop has no skip/exit", lp, not ctrl,
+                              "" if not ctrl else f"`{norm(ctrl[0])[:60]}` lets the walk miss nodes"))
+        except AnalysisError as e:
+            # the walker was reshaped beyond what this block recognises: its clauses are undecided, not violated
+            obs.append(ctx.tri("ORDER-TRAV", ["C06"], f"node:Node.{name}", f"{name}: emit/descend order of the walker", None, None, str(e)))
 
     # ---- recursive callback walkers
     from ..pat import match as _match
@@ -205,132 +209,140 @@ def order_trav(ctx: Ctx) -> List[Ob]:
         return isinstance(c, ast.Call) and _cb_call(c) is c and len(c.args) >= 2 and norm(c.args[1]) == subject
 
     for name, first in (("_visit_pre", "emit"), ("_visit_post", "descend")):
-        f = m.func(f"Node.{name}")
-        lp = _children_loop(ctx, f)
-        lv = lp.target.id if isinstance(lp.target, ast.Name) else "?"
-        descs = _top_index(lp.body, lambda st: _is_recursive_descent(ctx, f, st, lv))
-        ok = len(descs) == 1 and len(lp.body) == 1
-        obs.append(ctx.ob("ORDER-TRAV", ["C06"], f, f"{name}: exactly one recursive call per child, nothing else in the loop", lp, ok,
-                          "" if ok else "children would be skipped or visited twice"))
-        cbs = [c for c in ctx.env.calls_in[f] if _cb_call(c) is c and not any(c is x for x in ast.walk(lp))]
-        if len(cbs) != 1:
-            raise AnalysisError(f"{f.qualname}: walker shape not recognised ({len(cbs)} callback invocations outside the child loop)")
-        cb = cbs[0]
-        arg_ok = len(cb.args) >= 2 and norm(cb.args[0]) == "callback" and norm(cb.args[1]) == "self"
-        obs.append(ctx.ob("ORDER-TRAV", ["C06"], f, f"{name}: the callback is normalised and applied to self", cb, arg_ok,
-                          "" if arg_ok else f"`{norm(cb)}` does not call the user callback on this node"))
-        if first == "emit":
-            ok2 = always_before(ctx, f, cb, lp)
-        else:
-            ok2 = never_after(ctx, f, cb, lp) and not any(isinstance(x, ast.Return) for x in iter_own(f.node))
-        obs.append(ctx.ob("ORDER-TRAV", ["C06"], f, f"{name}: {first} first", None, ok2,
-                          "" if ok2 else "visit() must follow the same order as the iterator"))
-        if first == "emit":
-            ok3 = any((not pol) and is_skip_atom(e, "self") for e, pol in path_conds(ctx, f, lp))
-            obs.append(ctx.ob("ORDER-TRAV", ["C06"], f, f"{name}: a skip verdict (False from the normaliser) returns before the children", cb, ok3,
-                              "" if ok3 else "SkipBranch must suppress exactly that node's descendants"))
-        # nothing but the children test (and the skip verdict) guards the descent
-        extra_g = [("" if pol else "not ") + norm(e) for e, pol in path_conds(ctx, f, lp)
-                   if not is_skip_atom(e, "self") and norm(e) not in ("self._children", "self.children", "self._children is None")]
-        obs.append(ctx.ob("ORDER-TRAV", ["C06"], f, f"{name}: the descent depends only on the node having children", lp, not extra_g,
-                          "" if not extra_g else f"extra condition {extra_g}: some branches would not be visited"))
+        try:
+            f = m.func(f"Node.{name}")
+            lp = _children_loop(ctx, f)
+            lv = lp.target.id if isinstance(lp.target, ast.Name) else "?"
+            descs = _top_index(lp.body, lambda st: _is_recursive_descent(ctx, f, st, lv))
+            ok = len(descs) == 1 and len(lp.body) == 1
+            obs.append(ctx.ob("ORDER-TRAV", ["C06"], f, f"{name}: exactly one recursive call per child, nothing else in the loop", lp, ok,
+                              "" if ok else "children would be skipped or visited twice"))
+            cbs = [c for c in ctx.env.calls_in[f] if _cb_call(c) is c and not any(c is x for x in ast.walk(lp))]
+            if len(cbs) != 1:
+                raise AnalysisError(f"{f.qualname}: walker shape not recognised ({len(cbs)} callback invocations outside the child loop)")
+            cb = cbs[0]
+            arg_ok = len(cb.args) >= 2 and norm(cb.args[0]) == "callback" and norm(cb.args[1]) == "self"
+            obs.append(ctx.ob("ORDER-TRAV", ["C06"], f, f"{name}: the callback is normalised and applied to self", cb, arg_ok,
+                              "" if arg_ok else f"`{norm(cb)}` does not call the user callback on this node"))
+            if first == "emit":
+                ok2 = always_before(ctx, f, cb, lp)
+            else:
+                ok2 = never_after(ctx, f, cb, lp) and not any(isinstance(x, ast.Return) for x in iter_own(f.node))
+            obs.append(ctx.ob("ORDER-TRAV", ["C06"], f, f"{name}: {first} first", None, ok2,
+                              "" if ok2 else "visit() must follow the same order as the iterator"))
+            if first == "emit":
+                ok3 = any((not pol) and is_skip_atom(e, "self") for e, pol in path_conds(ctx, f, lp))
+                obs.append(ctx.ob("ORDER-TRAV", ["C06"], f, f"{name}: a skip verdict (False from the normaliser) returns before the children", cb, ok3,
+                                  "" if ok3 else "SkipBranch must suppress exactly that node's descendants"))
+            # nothing but the children test (and the skip verdict) guards the descent
+            extra_g = [("" if pol else "not ") + norm(e) for e, pol in path_conds(ctx, f, lp)
+                       if not is_skip_atom(e, "self") and norm(e) not in ("self._children", "self.children", "self._children is None")]
+            obs.append(ctx.ob("ORDER-TRAV", ["C06"], f, f"{name}: the descent depends only on the node having children", lp, not extra_g,
+                              "" if not extra_g else f"extra condition {extra_g}: some branches would not be visited"))
+        except AnalysisError as e:
+            # the walker was reshaped beyond what this block recognises: its clauses are undecided, not violated
+            obs.append(ctx.tri("ORDER-TRAV", ["C06"], f"node:Node.{name}", f"{name}: emit/descend order of the walker", None, None, str(e)))
     # ---- level walkers
     for name in ("_iter_level", "_visit_level"):
-        f = m.func(f"Node.{name}")
-        whiles = [n for n in iter_own(f.node) if isinstance(n, ast.While)]
-        if len(whiles) != 1 or not isinstance(whiles[0].test, ast.Name):
-            raise AnalysisError(f"{f.qualname}: level walker shape not recognised")
-        wl = whiles[0]
-        cur = wl.test.id
-        init = [b.expr for b in ctx.env.scope(f).resolve(cur)[1] if b.kind == "val"]
-        ok = any(norm(e) in ("self._children", "self.children") for e in init)
-        obs.append(ctx.ob("ORDER-TRAV", ["C06"], f, f"{name}: starts with self's children", None, ok,
-                          "" if ok else "the first level must be the start node's child list"))
-        # next-level accumulator: bound to `cur` as the last step of each round
-        last = wl.body[-1]
-        ok = isinstance(last, ast.Assign) and len(last.targets) == 1 and norm(last.targets[0]) == cur and isinstance(last.value, (ast.Name, ast.ListComp))
-        nxt = (last.value.id if isinstance(last.value, ast.Name) else cur) if ok else None
-        obs.append(ctx.ob("ORDER-TRAV", ["C06"], f, f"{name}: the level list is advanced as the last step of each round", last, ok,
-                          "" if ok else "the current level must be fully emitted before it is replaced by the next one"))
-        if nxt is None:
-            continue
-        # how the next level is built: either `nxt = []` + loop over the level with nxt.extend(<node>.children),
-        # or one comprehension over the level and each node's children (possibly assigned to the level variable directly)
-        builds = [st for st in wl.body if isinstance(st, (ast.Assign, ast.AnnAssign)) and norm(st.targets[0] if isinstance(st, ast.Assign) else st.target) == nxt]
-        fors = [st for st in wl.body if isinstance(st, ast.For) and norm(st.iter) == cur]
-        fl = None
-        lv = None
-        exts: List[ast.Call] = []
-        skip_guard_ok = None
-        if len(builds) == 1 and isinstance(builds[0].value, ast.ListComp) and not fors:
-            lc = builds[0].value
-            gens = lc.generators
-            shape = len(gens) == 2 and norm(gens[0].iter) == cur and isinstance(gens[0].target, ast.Name) and isinstance(gens[1].target, ast.Name) \
-                and norm(gens[1].iter) in (f"{gens[0].target.id}._children", f"{gens[0].target.id}.children") and norm(lc.elt) == gens[1].target.id \
-                and not gens[1].ifs and all(norm(t) in (f"{gens[0].target.id}._children", f"{gens[0].target.id}.children") for t in gens[0].ifs)
-            obs.append(ctx.ob("ORDER-TRAV", ["C06"], f, f"{name}: the next-level list is reset for every level", None, True, ""))
-            obs.append(ctx.ob("ORDER-TRAV", ["C06"], f, f"{name}: the next level is built by extending with each node's children, once, in order", builds[0], shape,
-                              "" if shape else "each node's children must be appended exactly once, in list order"))
-            lv = gens[0].target.id if gens and isinstance(gens[0].target, ast.Name) else None
-        else:
-            resets = _top_index(wl.body, lambda st: isinstance(st, (ast.Assign, ast.AnnAssign)) and norm(st.targets[0] if isinstance(st, ast.Assign) else st.target) == nxt
-                                and isinstance(st.value, ast.List) and not st.value.elts)
-            ok = bool(resets) and resets[0] == 0
-            obs.append(ctx.ob("ORDER-TRAV", ["C06"], f, f"{name}: the next-level list is reset for every level", None, bool(ok),
-                              "" if ok else "a next-level list that is not reset re-emits earlier levels"))
-            if len(fors) != 1 or not isinstance(fors[0].target, ast.Name):
-                raise AnalysisError(f"{f.qualname}: expected one loop over the current level")
-            fl = fors[0]
-            lv = fl.target.id
-            exts = [x for st in fl.body for x in ast.walk(st) if isinstance(x, ast.Call) and isinstance(x.func, ast.Attribute)
-                    and norm(x.func.value) == nxt]
-            ok = len(exts) == 1 and exts[0].func.attr == "extend" and len(exts[0].args) == 1 and norm(exts[0].args[0]) in (f"{lv}._children", f"{lv}.children")
-            if ok:
-                # guarded by nothing but the children test (and, for visit, the skip verdict)
-                g = [("" if pol else "not ") + norm(e) for e, pol in path_conds(ctx, f, exts[0])
-                     if any(exts[0] is x for x in ast.walk(fl)) and not is_skip_atom(e, lv) and norm(e) not in (f"{lv}._children", f"{lv}.children", cur)]
-                ok = not g
-            obs.append(ctx.ob("ORDER-TRAV", ["C06"], f, f"{name}: the next level is built by extending with each node's children, once, in order", fl, ok,
-                              "" if ok else "each node's children must be appended exactly once, in list order"))
-        if name == "_iter_level":
-            ys = [x for st in wl.body for x in ast.walk(st) if isinstance(x, (ast.Yield, ast.YieldFrom))]
-            y_rev = [y for y in ys if isinstance(y, ast.YieldFrom) and norm(y.value) == f"reversed({cur})"]
-            y_fwd = [y for y in ys if isinstance(y, ast.YieldFrom) and norm(y.value) == cur]
-            ok = len(ys) == 2 and len(y_rev) == 1 and len(y_fwd) == 1
-            if ok:
-                cr = [(norm(e), pol) for e, pol in path_conds(ctx, f, y_rev[0]) if norm(e) != cur]
-                cf = [(norm(e), pol) for e, pol in path_conds(ctx, f, y_fwd[0]) if norm(e) != cur]
-                ok = cr == [("revert", True)] and cf == [("revert", False)]
-            obs.append(ctx.ob("ORDER-TRAV", ["C06"], f, "_iter_level: each level is emitted once, reversed iff `revert`", None, ok,
-                              "" if ok else "the level must be yielded exactly once: reversed(children) when revert is set, children otherwise"))
-            from .util import find_under as _fu
+        try:
+            f = m.func(f"Node.{name}")
+            whiles = [n for n in iter_own(f.node) if isinstance(n, ast.While)]
+            if len(whiles) != 1 or not isinstance(whiles[0].test, ast.Name):
+                raise AnalysisError(f"{f.qualname}: level walker shape not recognised")
+            wl = whiles[0]
+            cur = wl.test.id
+            init = [b.expr for b in ctx.env.scope(f).resolve(cur)[1] if b.kind == "val"]
+            ok = any(norm(e) in ("self._children", "self.children") for e in init)
+            obs.append(ctx.ob("ORDER-TRAV", ["C06"], f, f"{name}: starts with self's children", None, ok,
+                              "" if ok else "the first level must be the start node's child list"))
+            # next-level accumulator: bound to `cur` as the last step of each round
+            last = wl.body[-1]
+            ok = isinstance(last, ast.Assign) and len(last.targets) == 1 and norm(last.targets[0]) == cur and isinstance(last.value, (ast.Name, ast.ListComp))
+            nxt = (last.value.id if isinstance(last.value, ast.Name) else cur) if ok else None
+            obs.append(ctx.ob("ORDER-TRAV", ["C06"], f, f"{name}: the level list is advanced as the last step of each round", last, ok,
+                              "" if ok else "the current level must be fully emitted before it is replaced by the next one"))
+            if nxt is None:
+                continue
+            # how the next level is built: either `nxt = []` + loop over the level with nxt.extend(<node>.children),
+            # or one comprehension over the level and each node's children (possibly assigned to the level variable directly)
+            builds = [st for st in wl.body if isinstance(st, (ast.Assign, ast.AnnAssign)) and norm(st.targets[0] if isinstance(st, ast.Assign) else st.target) == nxt]
+            fors = [st for st in wl.body if isinstance(st, ast.For) and norm(st.iter) == cur]
+            fl = None
+            lv = None
+            exts: List[ast.Call] = []
+            skip_guard_ok = None
+            if len(builds) == 1 and isinstance(builds[0].value, ast.ListComp) and not fors:
+                lc = builds[0].value
+                gens = lc.generators
+                shape = len(gens) == 2 and norm(gens[0].iter) == cur and isinstance(gens[0].target, ast.Name) and isinstance(gens[1].target, ast.Name) \
+                    and norm(gens[1].iter) in (f"{gens[0].target.id}._children", f"{gens[0].target.id}.children") and norm(lc.elt) == gens[1].target.id \
+                    and not gens[1].ifs and all(norm(t) in (f"{gens[0].target.id}._children", f"{gens[0].target.id}.children") for t in gens[0].ifs)
+                obs.append(ctx.ob("ORDER-TRAV", ["C06"], f, f"{name}: the next-level list is reset for every level", None, True, ""))
+                obs.append(ctx.ob("ORDER-TRAV", ["C06"], f, f"{name}: the next level is built by extending with each node's children, once, in order", builds[0], shape,
+                                  "" if shape else "each node's children must be appended exactly once, in list order"))
+                lv = gens[0].target.id if gens and isinstance(gens[0].target, ast.Name) else None
+            else:
+                resets = _top_index(wl.body, lambda st: isinstance(st, (ast.Assign, ast.AnnAssign)) and norm(st.targets[0] if isinstance(st, ast.Assign) else st.target) == nxt
+                                    and isinstance(st.value, ast.List) and not st.value.elts)
+                ok = bool(resets) and resets[0] == 0
+                obs.append(ctx.ob("ORDER-TRAV", ["C06"], f, f"{name}: the next-level list is reset for every level", None, bool(ok),
+                                  "" if ok else "a next-level list that is not reset re-emits earlier levels"))
+                if len(fors) != 1 or not isinstance(fors[0].target, ast.Name):
+                    raise AnalysisError(f"{f.qualname}: expected one loop over the current level")
+                fl = fors[0]
+                lv = fl.target.id
+                exts = [x for st in fl.body for x in ast.walk(st) if isinstance(x, ast.Call) and isinstance(x.func, ast.Attribute)
+                        and norm(x.func.value) == nxt]
+                ok = len(exts) == 1 and exts[0].func.attr == "extend" and len(exts[0].args) == 1 and norm(exts[0].args[0]) in (f"{lv}._children", f"{lv}.children")
+                if ok:
+                    # guarded by nothing but the children test (and, for visit, the skip verdict)
+                    g = [("" if pol else "not ") + norm(e) for e, pol in path_conds(ctx, f, exts[0])
+                         if any(exts[0] is x for x in ast.walk(fl)) and not is_skip_atom(e, lv) and norm(e) not in (f"{lv}._children", f"{lv}.children", cur)]
+                    ok = not g
+                obs.append(ctx.ob("ORDER-TRAV", ["C06"], f, f"{name}: the next level is built by extending with each node's children, once, in order", fl, ok,
+                                  "" if ok else "each node's children must be appended exactly once, in list order"))
+            if name == "_iter_level":
+                ys = [x for st in wl.body for x in ast.walk(st) if isinstance(x, (ast.Yield, ast.YieldFrom))]
+                y_rev = [y for y in ys if isinstance(y, ast.YieldFrom) and norm(y.value) == f"reversed({cur})"]
+                y_fwd = [y for y in ys if isinstance(y, ast.YieldFrom) and norm(y.value) == cur]
+                ok = len(ys) == 2 and len(y_rev) == 1 and len(y_fwd) == 1
+                if ok:
+                    cr = [(norm(e), pol) for e, pol in path_conds(ctx, f, y_rev[0]) if norm(e) != cur]
+                    cf = [(norm(e), pol) for e, pol in path_conds(ctx, f, y_fwd[0]) if norm(e) != cur]
+                    ok = cr == [("revert", True)] and cf == [("revert", False)]
+                obs.append(ctx.ob("ORDER-TRAV", ["C06"], f, "_iter_level: each level is emitted once, reversed iff `revert`", None, ok,
+                                  "" if ok else "the level must be yielded exactly once: reversed(children) when revert is set, children otherwise"))
+                from .util import find_under as _fu
 
-            tg = _fu(ctx, f, "revert = not revert", [("toggle", True)])
-            ok = len(tg) == 1 and len(find_all_assign(f, "revert")) == 1 and any(tg[0][0] is x for st in wl.body for x in ast.walk(st))
-            obs.append(ctx.ob("ORDER-TRAV", ["C06"], f, "_iter_level: `toggle` flips the direction once per level", None, ok,
-                              "" if ok else "zigzag must alternate direction on every level"))
-            if ys and tg:
-                before_tg = _stmts_before_in(ctx, f, tg[0][0], wl)
-                ok = all(any(y is x for s_ in before_tg for x in ast.walk(s_)) for y in ys)
-                obs.append(ctx.ob("ORDER-TRAV", ["C06"], f, "_iter_level: the level is emitted before the direction flips", None, ok,
-                                  "" if ok else "the first level of ZIGZAG must run left-to-right"))
-            ctrl = [x for st in (fl.body if fl is not None else []) for x in ast.walk(st) if isinstance(x, (ast.Break, ast.Continue, ast.Return))]
-            obs.append(ctx.ob("ORDER-TRAV", ["C06"], f, "_iter_level: no node of a level is skipped", fl, not ctrl,
-                              "" if not ctrl else "a break/continue in the level loop loses descendants"))
-        else:
-            if fl is None:
-                raise AnalysisError(f"{f.qualname}: expected one loop over the current level")
-            cbs = [c for c in ctx.env.calls_in[f] if _cb_call(c) is c and any(c is x for x in ast.walk(fl))]
-            ok = len(cbs) == 1 and len(cbs[0].args) >= 2 and norm(cbs[0].args[0]) == "callback" and norm(cbs[0].args[1]) == lv \
-                and _unconditional_in(ctx, f, cbs[0], fl)
-            obs.append(ctx.ob("ORDER-TRAV", ["C06"], f, "_visit_level: the callback is applied to every node of the level", fl, ok,
-                              "" if ok else "the callback must be called once per node"))
-            ctrl = [x for st in fl.body for x in ast.walk(st) if isinstance(x, (ast.Break, ast.Return))]
-            obs.append(ctx.ob("ORDER-TRAV", ["C06"], f, "_visit_level: a verdict on one node never ends the level (no break/return in the level loop)", fl, not ctrl,
-                              "" if not ctrl else f"`{norm(ctrl[0])}` leaves the level loop: the remaining nodes of the level (and their descendants) are never visited"))
-            ok = bool(exts) and any((not pol) and is_skip_atom(e, lv) for e, pol in path_conds(ctx, f, exts[0]))
-            obs.append(ctx.ob("ORDER-TRAV", ["C06"], f, "_visit_level: a skip verdict keeps the node's children out of the next level", fl, bool(ok),
-                              "" if ok else "SkipBranch must suppress exactly that node's descendants"))
+                tg = _fu(ctx, f, "revert = not revert", [("toggle", True)])
+                ok = len(tg) == 1 and len(find_all_assign(f, "revert")) == 1 and any(tg[0][0] is x for st in wl.body for x in ast.walk(st))
+                obs.append(ctx.ob("ORDER-TRAV", ["C06"], f, "_iter_level: `toggle` flips the direction once per level", None, ok,
+                                  "" if ok else "zigzag must alternate direction on every level"))
+                if ys and tg:
+                    before_tg = _stmts_before_in(ctx, f, tg[0][0], wl)
+                    ok = all(any(y is x for s_ in before_tg for x in ast.walk(s_)) for y in ys)
+                    obs.append(ctx.ob("ORDER-TRAV", ["C06"], f, "_iter_level: the level is emitted before the direction flips", None, ok,
+                                      "" if ok else "the first level of ZIGZAG must run left-to-right"))
+                ctrl = [x for st in (fl.body if fl is not None else []) for x in ast.walk(st) if isinstance(x, (ast.Break, ast.Continue, ast.Return))]
+                obs.append(ctx.ob("ORDER-TRAV", ["C06"], f, "_iter_level: no node of a level is skipped", fl, not ctrl,
+                                  "" if not ctrl else "a break/continue in the level loop loses descendants"))
+            else:
+                if fl is None:
+                    raise AnalysisError(f"{f.qualname}: expected one loop over the current level")
+                cbs = [c for c in ctx.env.calls_in[f] if _cb_call(c) is c and any(c is x for x in ast.walk(fl))]
+                ok = len(cbs) == 1 and len(cbs[0].args) >= 2 and norm(cbs[0].args[0]) == "callback" and norm(cbs[0].args[1]) == lv \
+                    and _unconditional_in(ctx, f, cbs[0], fl)
+                obs.append(ctx.ob("ORDER-TRAV", ["C06"], f, "_visit_level: the callback is applied to every node of the level", fl, ok,
+                                  "" if ok else "the callback must be called once per node"))
+                ctrl = [x for st in fl.body for x in ast.walk(st) if isinstance(x, (ast.Break, ast.Return))]
+                obs.append(ctx.ob("ORDER-TRAV", ["C06"], f, "_visit_level: a verdict on one node never ends the level (no break/return in the level loop)", fl, not ctrl,
+                                  "" if not ctrl else f"`{norm(ctrl[0])}` leaves the level loop: the remaining nodes of the level (and their descendants) are never visited"))
+                ok = bool(exts) and any((not pol) and is_skip_atom(e, lv) for e, pol in path_conds(ctx, f, exts[0]))
+                obs.append(ctx.ob("ORDER-TRAV", ["C06"], f, "_visit_level: a skip verdict keeps the node's children out of the next level", fl, bool(ok),
+                                  "" if ok else "SkipBranch must suppress exactly that node's descendants"))
+        except AnalysisError as e:
+            # the walker was reshaped beyond what this block recognises: its clauses are undecided, not violated
+            obs.append(ctx.tri("ORDER-TRAV", ["C06"], f"node:Node.{name}", f"{name}: emit/descend order of the walker", None, None, str(e)))
     return obs
 
 
